@@ -524,7 +524,7 @@ func ruleOkResults(c *Ctx, id string) {
 // accept 0.)  Block 0 is the header of the write-ahead log.
 func ruleNullSource(c *Ctx, id string) {
 	V, P, R := c.V, c.P, c.R
-	R.Rule(id, "a block number that can be 0 (from AllocBlock, bmap, indbmap, a pointer slot) is used as a block address only on the 'not 0' side of a test of that value", 4)
+	R.Rule(id, "a block number that can be 0 (from AllocBlock, bmap, indbmap, a pointer slot) is used as a block address only on the 'not 0' side of a test of that value", 3)
 	b2a := P.Func("super.(*FsSuper).Block2addr")
 	isAddrUse := funcIs(V.ZeroBlock, V.ReadBlock, b2a)
 	bnumGet := func(f *ssa.Function) bool { return f != nil && f.Name() == "BnumGet" }
@@ -634,6 +634,58 @@ func ruleNullSource(c *Ctx, id string) {
 				return true
 			}
 			g := nonNull(arg, call.Block(), 0)
+			if !g {
+				// the callee may say "no block" with an error result: the use lies on the err == nil side, and the
+				// callee answers a nil error only where the number it returns was tested not to be 0
+				if ex, isE := arg.(*ssa.Extract); isE {
+					if cl, isC := ex.Tuple.(*ssa.Call); isC {
+						if callee := staticCallee(cl); callee != nil && callee.Blocks != nil {
+							errIdx := -1
+							rs := callee.Signature.Results()
+							for i := 0; i < rs.Len(); i++ {
+								if types.Identical(rs.At(i).Type(), types.Universe.Lookup("error").Type()) {
+									errIdx = i
+								}
+							}
+							if errIdx >= 0 {
+								sib := func(Subst) func(Cond) (bool, bool) {
+									return func(cd Cond) (bool, bool) {
+										if cd.Op != token.EQL && cd.Op != token.NEQ {
+											return false, false
+										}
+										for _, pr := range [][2]ssa.Value{{cd.X, cd.Y}, {cd.Y, cd.X}} {
+											if pr[0] == nil || pr[1] == nil || !isNilConst(pr[1]) {
+												continue
+											}
+											if e2, ok := stripConv(pr[0]).(*ssa.Extract); ok && e2.Tuple == ex.Tuple && e2.Index == errIdx {
+												return true, cd.Op == token.EQL
+											}
+										}
+										return false, false
+									}
+								}
+								useOK := guardedByX(fn, call.Block(), sib, nil, 0)
+								// in the callee: a return with a nil error returns a number tested != 0
+								calleeOK := true
+								for _, b := range callee.Blocks {
+									r, isR := b.Instrs[len(b.Instrs)-1].(*ssa.Return)
+									if !isR || errIdx >= len(r.Results) || ex.Index >= len(r.Results) {
+										continue
+									}
+									if !isNilConst(r.Results[errIdx]) {
+										continue
+									}
+									rv := stripConv(r.Results[ex.Index])
+									if !guardedByX(callee, b, notNull(rv), nil, 0) {
+										calleeOK = false
+									}
+								}
+								g = useOK && calleeOK
+							}
+						}
+					}
+				}
+			}
 			R.Check(g, id, key, P.Pos(call.Pos()), "the number is known to be non-zero where it is used as an address", "dominated by the != 0 side of a test of this value (or of every value merged into it)", "the number can be 0 (no block: the disk is full, or a hole) and is used as a block address without a test: block 0 is the header of the write-ahead log - it is read as file data, or zeroed / written inside a committed transaction")
 		}
 	}
